@@ -367,10 +367,39 @@ func ruleHdrDecoder(c *Ctx, r *RuleResult, fnName string) {
 					}
 				}
 			}
+			// or the header is cut off the string itself: a phi of s[K:] re-slices with constant K
+			var sph *ssa.Phi
+			if iph == nil {
+				for _, in := range b.Instrs {
+					ph, ok := in.(*ssa.Phi)
+					if !ok {
+						break
+					}
+					if bt, isB := ph.Type().Underlying().(*types.Basic); !isB || bt.Info()&types.IsString == 0 {
+						continue
+					}
+					all := len(ph.Edges) == len(nph.Edges)
+					for _, e := range ph.Edges {
+						sl, isSl := e.(*ssa.Slice)
+						if !isSl || sl.Low == nil || sl.High != nil {
+							all = false
+							break
+						}
+						if _, isK := constInt(sl.Low); !isK {
+							all = false
+						}
+					}
+					if all {
+						sph = ph
+					}
+				}
+			}
 			for ei, e := range nph.Edges {
 				fm := form{n: e, at: nph}
 				if iph != nil {
 					fm.i = iph.Edges[ei]
+				} else if sph != nil {
+					fm.i = sph.Edges[ei].(*ssa.Slice).Low
 				}
 				forms = append(forms, fm)
 			}
@@ -745,16 +774,22 @@ func ruleSextet(c *Ctx) *RuleResult {
 		}
 		for _, blk := range [][]ssa.Instruction{all} {
 			for _, in := range blk {
-				bo, isBo := in.(*ssa.BinOp)
-				if !isBo || bo.Op != token.SUB {
-					continue
-				}
-				if k, isK := constInt(bo.X); !isK || k != 64 {
-					continue
-				}
-				call, isCall := bo.Y.(*ssa.Call)
-				if !isCall || call.Call.StaticCallee() == nil || call.Call.StaticCallee().String() != "math/bits.LeadingZeros64" {
-					continue
+				var call *ssa.Call
+				if lc, isCall := in.(*ssa.Call); isCall && lc.Call.StaticCallee() != nil && lc.Call.StaticCallee().String() == "math/bits.Len64" {
+					call = lc // bits.Len64(x) is 64 - LeadingZeros64(x)
+				} else {
+					bo, isBo := in.(*ssa.BinOp)
+					if !isBo || bo.Op != token.SUB {
+						continue
+					}
+					if k, isK := constInt(bo.X); !isK || k != 64 {
+						continue
+					}
+					lz, isCall := bo.Y.(*ssa.Call)
+					if !isCall || lz.Call.StaticCallee() == nil || lz.Call.StaticCallee().String() != "math/bits.LeadingZeros64" {
+						continue
+					}
+					call = lz
 				}
 				arg := strip(call.Call.Args[0])
 				if s, isS := arg.(*ssa.BinOp); isS && s.Op == token.SUB {
@@ -936,6 +971,112 @@ func padRule(c *Ctx, r *RuleResult, fnName string) {
 	}
 }
 
+// rangeCheckedEdge finds, in fn, a call r := H(s) of an unexported helper whose body scans the
+// string with the range comparisons inside a loop, returns from inside the loop only non-constant
+// values (the offending index) and after the loop a negative constant; and an If in fn on r whose
+// one successor is taken exactly when r is that "all passed" value. It returns that successor.
+func rangeCheckedEdge(fn *ssa.Function) (*ssa.BasicBlock, *ssa.Call) {
+	for _, b := range fn.Blocks {
+		for _, in := range b.Instrs {
+			call, ok := in.(*ssa.Call)
+			if !ok {
+				continue
+			}
+			h := call.Call.StaticCallee()
+			if h == nil || h.Pkg != fn.Pkg || h.Blocks == nil || h.Object() == nil || h.Object().Exported() || h.Signature.Results().Len() != 1 || !isInt(h.Signature.Results().At(0).Type()) {
+				continue
+			}
+			// the helper's scan loop
+			var chk *ssa.BasicBlock
+			for _, hb := range h.Blocks {
+				for _, hin := range hb.Instrs {
+					if bo, ok := hin.(*ssa.BinOp); ok && (bo.Op == token.LSS || bo.Op == token.GTR) && isByte(bo.X.Type()) {
+						if _, isIdx := bo.X.(*ssa.Index); isIdx {
+							chk = hb
+						}
+					}
+				}
+			}
+			if chk == nil {
+				continue
+			}
+			loops := loopsOf(h)
+			var body map[*ssa.BasicBlock]bool
+			var header *ssa.BasicBlock
+			for hh, bd := range loops {
+				if bd[chk] {
+					body, header = bd, hh
+				}
+			}
+			if body == nil {
+				continue
+			}
+			var passed *int64
+			good := true
+			for _, hb := range h.Blocks {
+				ret, isRet := hb.Instrs[len(hb.Instrs)-1].(*ssa.Return)
+				if !isRet {
+					continue
+				}
+				k, isK := constInt(ret.Results[0])
+				reachedAfterLoop := false
+				for _, s := range header.Succs {
+					if !body[s] && (s == hb || s.Dominates(hb)) {
+						reachedAfterLoop = true
+					}
+				}
+				switch {
+				case reachedAfterLoop && isK && k < 0:
+					kk := k
+					if passed != nil && *passed != kk {
+						good = false
+					}
+					passed = &kk
+				case !reachedAfterLoop && !isK:
+					// the index of the offending byte: non-negative by construction of the scan
+				default:
+					good = false
+				}
+			}
+			if !good || passed == nil {
+				continue
+			}
+			// the caller's test of the result
+			if call.Referrers() == nil {
+				continue
+			}
+			for _, ref := range *call.Referrers() {
+				bo, isBo := ref.(*ssa.BinOp)
+				if !isBo || bo.X != ssa.Value(call) || bo.Referrers() == nil {
+					continue
+				}
+				k, isK := constInt(bo.Y)
+				if !isK {
+					continue
+				}
+				for _, r2 := range *bo.Referrers() {
+					iff, isIf := r2.(*ssa.If)
+					if !isIf {
+						continue
+					}
+					// which successor is taken exactly for negative results (all results are >= 0 or *passed)?
+					var okSucc *ssa.BasicBlock
+					switch {
+					case bo.Op == token.GEQ && k == 0, bo.Op == token.GTR && k == -1, bo.Op == token.NEQ && k == *passed:
+						okSucc = iff.Block().Succs[1]
+					case bo.Op == token.LSS && k == 0, bo.Op == token.LEQ && k == -1, bo.Op == token.EQL && k == *passed:
+						okSucc = iff.Block().Succs[0]
+					}
+					if okSucc != nil && len(okSucc.Preds) == 1 {
+						return okSucc, call
+					}
+				}
+			}
+		}
+	}
+	return nil, nil
+}
+
 // rangeDominates: every Index of the string whose result feeds arithmetic (s[c]-63) is dominated
 // by the exit of the loop that contains the range comparisons.
 func rangeDominates(c *Ctx, r *RuleResult, fn *ssa.Function, name string) {
@@ -949,27 +1090,34 @@ func rangeDominates(c *Ctx, r *RuleResult, fn *ssa.Function, name string) {
 			}
 		}
 	}
-	if len(checkBlocks) == 0 {
-		r.undecided("%s: byte range check not found", name)
-		return
-	}
-	loops := loopsOf(fn)
-	var body map[*ssa.BasicBlock]bool
-	var header *ssa.BasicBlock
-	for h, bd := range loops {
-		if bd[checkBlocks[0]] {
-			body, header = bd, h
-		}
-	}
-	if body == nil {
-		r.undecided("%s: byte range check is not inside a loop over the string", name)
-		return
-	}
-	// exit block of that loop reached only when the whole string was checked: header's non-body successor
 	var exit *ssa.BasicBlock
-	for _, s := range header.Succs {
-		if !body[s] {
-			exit = s
+	var scanCall *ssa.Call
+	if len(checkBlocks) == 0 {
+		// the scan may live in a helper that reports the first bad byte (an index, or a negative
+		// constant when every byte passed); the caller then goes on only on the "all passed" edge
+		exit, scanCall = rangeCheckedEdge(fn)
+		if exit == nil {
+			r.undecided("%s: byte range check not found", name)
+			return
+		}
+	} else {
+		loops := loopsOf(fn)
+		var body map[*ssa.BasicBlock]bool
+		var header *ssa.BasicBlock
+		for h, bd := range loops {
+			if bd[checkBlocks[0]] {
+				body, header = bd, h
+			}
+		}
+		if body == nil {
+			r.undecided("%s: byte range check is not inside a loop over the string", name)
+			return
+		}
+		// exit block of that loop reached only when the whole string was checked: header's non-body successor
+		for _, s := range header.Succs {
+			if !body[s] {
+				exit = s
+			}
 		}
 	}
 	ok := exit != nil
@@ -994,7 +1142,7 @@ func rangeDominates(c *Ctx, r *RuleResult, fn *ssa.Function, name string) {
 	for _, b := range fn.Blocks {
 		for _, in := range b.Instrs {
 			call, isCall := in.(*ssa.Call)
-			if !isCall {
+			if !isCall || call == scanCall {
 				continue
 			}
 			cal := call.Call.StaticCallee()
